@@ -605,16 +605,17 @@ def gen_border(rel, tree):
     # vertices
     fn = T.find_def(tree, "SurfaceMesh._compute_interior_boundary_vertices", rel)
     b = T.body_nodoc(fn)
-    ok = len(b) == 6 and isinstance(b[2], ast.For) and isinstance(b[5], ast.For)
+    ok = len(b) == 7 and isinstance(b[3], ast.For) and isinstance(b[6], ast.For)
     if ok:
         strict(rel, fn, """
             def f(self):
                 self._boundary_vertices = set()
+                self.vertices.delete_attribute("border")
                 self._is_vertex_on_border = self.vertices.create_attribute("border", bool)
                 self._boundary_vertices = list(self.boundary_vertices)
                 self._interior_vertices = []
-        """, stmts=[b[0], b[1], b[3], b[4]])
-        l1, l2 = b[2], b[5]
+        """, stmts=[b[0], b[1], b[2], b[4], b[5]])
+        l1, l2 = b[3], b[6]
         ok = isinstance(l1.target, ast.Name) and T.dotted(l1.iter) == "self.boundary_edges" and len(l1.body) >= 1 \
             and isinstance(l2.target, ast.Name) and T.dotted(l2.iter) == "self.id_vertices" and len(l2.body) == 1
     if not ok:
